@@ -13,6 +13,32 @@ func extraRules() []*Rule {
 // extraSpecs contributes rules of those families to the properties.
 func extraSpecs() []*PropertySpec {
 	return []*PropertySpec{
+		{
+			ID:         "C12",
+			Rules:      []string{"LOG-WSP", "TMP-RENAME", "TMP-CLEAN", "REPLAY-TAIL", "ERR-DISC", "COMPACT-KEEP"},
+			Decided:    "every log mutator writes, fsyncs and only then publishes in memory, every error path returns before publishing; compaction and discard go through a temporary file in the log directory that is synced and closed (as is the old file) before the rename, the in-memory log is replaced only afterwards and the temporary is removed on failure; NewLog removes temporaries; Replay distinguishes a clean end from a torn tail, truncates the file to the last complete record, syncs and repositions; no storage error is dropped; Compact/DiscardEntries keep exactly the boundary placeholder and suffix",
+			NotDecided: "byte-prefix semantics of the file system; decoding of garbage in the middle of the file; directory fsync after rename (no site in the repository does it; not inferred as a rule)",
+		},
+		{
+			ID:         "C13",
+			Rules:      []string{"STATE-ATOMIC", "SNAP-ATOMIC", "SNAP-PICK", "TMP-CLEAN", "WALK-RM", "ERR-DISC"},
+			Decided:    "term/vote and snapshots are written to a temporary file/directory that is synced and closed before the atomic rename, with cleanup on failure; the three constructors remove temporaries first and the walk that does so skips a removed directory; SnapshotFile returns the last of the sorted, final-name-only directory list; no storage error is dropped",
+			NotDecided: "that the directory sort key is right (examined: the Sscanf-based comparator always fails but the pick stays correct because ReadDir order is already sorted; see DESIGN C13); file-system behaviour; directory fsync",
+		},
+		{
+			ID:         "C14",
+			Rules:      []string{"SNAP-ORDER", "RESTORE-COVER", "TMP-CLEAN", "WALK-RM", "REPLAY-TAIL", "TERM-VOTE", "FATAL-IO"},
+			Thorough:   []string{"STATE-ATOMIC", "LOG-WSP", "TMP-RENAME", "SNAP-ATOMIC"},
+			Decided:    "the snapshot is durable (Close, error fatal) before the snapshot boundary is stored, which precedes trimming the log, on both the local and the install path; restore covers all four stores (log open+replay, term/vote, newest snapshot with its label, configuration scan) and NewRaft calls it; constructors clean temporaries; a torn log tail is repaired; term/vote are persisted before any reply; Fatal is reached only through a non-nil error of a storage/state-machine/codec call",
+			NotDecided: "which concrete crash images make a later GetEntry fail (needs the directory image, see observation O2); convergence after restart (C15)",
+		},
+		{ID: "C04", Rules: []string{"LOG-WSP", "RESTORE-COVER"}, Decided: "the bundled log syncs before publishing an append; restore rebuilds term, vote, log, snapshot boundary and configuration from disk"},
+		{ID: "C08", Rules: []string{"RESTORE-COVER"}, Thorough: []string{"STATE-ATOMIC"}, Decided: "restore reloads currentTerm and votedFor from results #0/#1 of StateStorage.State()"},
+		{ID: "C10", Rules: []string{"RESTORE-COVER"}, Decided: "restore takes lastApplied, commitIndex and the snapshot boundary from the metadata of the very file handed to StateMachine.Restore"},
+		{ID: "C11", Rules: []string{"COMPACT-KEEP"}, Decided: "Compact keeps the boundary entry as placeholder plus the suffix, DiscardEntries leaves exactly the placeholder, LastIndex/LastTerm/NextIndex read the last element"},
+		{ID: "C15", Rules: []string{"CHUNK-BOUND", "HEARTBEAT"}, Decided: "the bytes of one InstallSnapshot request are bounded by the chunk constant, itself below the 4 MiB gRPC limit (one known finding D15); heartbeats go to every member on every tick of a non-follower; the election timeout is re-randomised per iteration"},
+		{ID: "C19", Rules: []string{"CHUNK-BOUND"}, Decided: "snapshot payloads cross the transport in bounded chunks (one known finding D15)"},
+		{ID: "C18", Rules: []string{"LIFECYCLE"}, Decided: "exhaustive exploration of Start/Restart/Stop/Bootstrap sequences over the (running, log open, configured, lifecycle flags) automaton extracted from the code: a running node always has its log open and no lifecycle method uses a closed log"},
 		{ID: "C01", Rules: []string{"APPLY-ORDER"},
 			Decided: "the apply loop fetches log[lastApplied+1] only while lastApplied < commitIndex, hands exactly that entry's index/term/data to the state machine and advances lastApplied by one"},
 		{ID: "C07", Rules: []string{"LEADER-APPEND"},
